@@ -37,11 +37,51 @@ def load():
 def configs(tier, seed):
     cfgs = []
     for sc in ('linear', 'octave', 'mel', 'bark'):
-        for ob in ('inv_hz', 'inv_scale', 'mono_h2s', 'mono_s2h', 'lipschitz'):
+        for ob in ('inv_hz', 'inv_scale', 'mono_h2s', 'mono_s2h', 'lipschitz', 'int_arg', 'reassigned'):
+            if ob == 'reassigned' and sc not in ('linear', 'octave'):
+                continue
+            if ob == 'int_arg':
+                for ik in ('int', 'int32', 'int64'):
+                    cfgs.append(dict(kind='scale', name='%s %s %s' % (sc, ob, ik), scale=sc, ob=ob, ikind=ik))
+                continue
             cfgs.append(dict(kind='scale', name='%s %s' % (sc, ob), scale=sc, ob=ob))
     cfgs.append(dict(kind='octave_ctor', name='octave constructor'))
     cfgs.append(dict(kind='anchor', name='mel/bark anchors'))
     return cfgs
+
+
+class SMachInt(symex.SInt):
+    """NumPy fixed-width integer scalar (np.int32 / np.int64): like an integer, except that an integer base raised to it
+    is computed in that width and wraps (2 ** np.int32(31) == -2**31, 2 ** np.int32(32) == 0)"""
+    bits = 32
+
+    def __rpow__(self, base):
+        if isinstance(base, int) and not isinstance(base, bool) and base == 2:
+            b = self.bits
+            return SReal(z3.If(self.z < b - 1, _exact_pow2(self.z), z3.If(self.z == b - 1, z3.RealVal(-(2 ** (b - 1))), z3.RealVal(0))))
+        return _int_rpow(self, base)
+
+
+def _exact_pow2(kz):
+    """2 ** k for an integer term 0 <= k <= 70 as an exact case distinction (outside: the uninterpreted POW2)"""
+    from vlib.mathnp import LOG2POW2
+    e = LOG2POW2.g(z3.ToReal(kz))
+    for k in range(70, -1, -1):
+        e = z3.If(kz == k, z3.RealVal(2 ** k), e)
+    return e
+
+
+def _int_rpow(self, base):
+    if base == 2:           # int or float base: mathematically exact power of an integer exponent
+        return SReal(_exact_pow2(self.z))
+    raise symex.Unsupported('%r ** integer proxy' % (base,))
+
+
+symex.SInt.__rpow__ = _int_rpow
+
+
+class SMachInt64(SMachInt):
+    bits = 64
 
 
 def _make(ns, scale):
@@ -72,6 +112,35 @@ def run_scale(cfg):
         f = z3.Real('f')
         c.assume(f >= lo, f <= FMAX)
         try:
+            if obn == 'int_arg':
+                # an integer-typed argument (Python int / NumPy integer) is a real number like any other: same value as the float
+                n = z3.Int('n')
+                c.assume(z3.ToReal(n) >= lo, n >= 0, n <= 100000)
+                if scale == 'octave':
+                    c.assume(n >= 1)
+                SInt = {'int': symex.SInt, 'int32': SMachInt, 'int64': SMachInt64}[cfg.get('ikind', 'int')]
+                SInt0 = symex.SInt        # reference: the same integer with unbounded (Python int) arithmetic
+                hi_, hf_ = o.hertz_to_scale(SInt(n)), o.hertz_to_scale(SReal(z3.ToReal(n)))
+                k = z3.Int('k')
+                c.assume(k >= 0, k <= 40)
+                sf_ = o.hertz_to_scale(SReal(f))
+                si_, sr_ = o.scale_to_hertz(SInt(k)), o.scale_to_hertz(SInt0(k))
+                c.assume(rv(sr_) >= lo, rv(sr_) <= FMAX)        # the scale value lies in the image of the domain [lowest, 10^5] Hz
+                # the integer scale value must lie in the image for the comparison to be meaningful: k == h2s(f) for some f
+                return ('ok', z3.Or(rv(hi_) != rv(hf_), rv(si_) != rv(sr_)))
+            if obn == 'reassigned':
+                # low_hz / slope_hz are public attributes: after reassigning them the two maps are still inverse to each other
+                if scale == 'linear':
+                    l2, s2 = z3.Real('low_hz2'), z3.Real('slope_hz2')
+                    c.assume(s2 > 0, s2 <= 1000, l2 >= -FMAX, l2 <= FMAX)
+                    o.low_hz, o.slope_hz = SReal(l2), SReal(s2)
+                else:
+                    l2 = z3.Real('low_hz2')
+                    c.assume(l2 > 0, l2 <= FMAX, f >= l2)
+                    o.low_hz = SReal(l2)
+                s = o.hertz_to_scale(SReal(f))
+                back = o.scale_to_hertz(s)
+                return ('ok', rv(back) != f)
             if obn == 'inv_hz':
                 s = o.hertz_to_scale(SReal(f))
                 back = o.scale_to_hertz(s)
@@ -109,7 +178,7 @@ def run_scale(cfg):
         if res is None or res[0] == 'skip':
             continue
         ob += 1
-        base = dict(kind='scale', scale=scale, ob=obn)
+        base = dict(kind='scale', scale=scale, ob=obn, ikind=cfg.get('ikind'))
         if res[0] == 'exception':
             m = ctx.model()
             viol.append(dict(base, what='exception ' + res[1], f=_val(m, 'f'), g=_val(m, 'g'), low_hz=_val(m, 'low_hz'), slope_hz=_val(m, 'slope_hz')))
@@ -120,7 +189,8 @@ def run_scale(cfg):
         r = check_sat(s)
         if r == 'sat':
             m = s.model()
-            viol.append(dict(base, what=obn, f=_val(m, 'f'), g=_val(m, 'g'), low_hz=_val(m, 'low_hz'), slope_hz=_val(m, 'slope_hz')))
+            viol.append(dict(base, what=obn, f=_val(m, 'f'), g=_val(m, 'g'), low_hz=_val(m, 'low_hz'), slope_hz=_val(m, 'slope_hz'), low_hz2=_val(m, 'low_hz2'),
+                             slope_hz2=_val(m, 'slope_hz2'), n=m.eval(z3.Int('n'), True).as_long(), k=m.eval(z3.Int('k'), True).as_long()))
         else:
             dis += 1
             if len(samples) < 1:
@@ -235,6 +305,31 @@ def replay(w):
             grid += [p, p * (1 - 1e-9), p * (1 + 1e-9), p + 1e-6, max(0.0, p - 1e-6)]
         grid = sorted(set(x for x in grid if x >= (w.get('low_hz') if sc == 'octave' else 0)))
         ob = w['ob'] if 'ob' in w else ''
+        if ob == 'int_arg':
+            import numpy as _np
+            for n_ in sorted(set([int(w.get('n', 1)), int(w.get('k', 1)), 0, 1, 2, 3, 19, 20, 21, 22, 25])):
+                for mk in {'int32': (_np.int32,), 'int64': (_np.int64,)}.get(w.get('ikind'), (int,)):
+                    for name in ('hertz_to_scale', 'scale_to_hertz'):
+                        if sc == 'octave' and name == 'hertz_to_scale' and n_ < max(1, w.get('low_hz') or 1):
+                            continue
+                        try:
+                            a_, b_ = getattr(o, name)(mk(n_)), getattr(o, name)(float(n_))
+                        except Exception as e:
+                            return {'reproduced': True, 'detail': '%s.%s(%s(%d)) raised %s' % (sc, name, mk.__name__, n_, type(e).__name__)}
+                        if not (abs(float(a_) - float(b_)) <= 1e-9 * max(1.0, abs(float(b_)))):
+                            return {'reproduced': True, 'detail': '%s.%s(%s(%d)) = %r but %s(%r) = %r: an integer-typed argument is treated differently' % (sc, name, mk.__name__, n_, a_, name, float(n_), b_)}
+            return {'reproduced': False, 'detail': 'integer-typed arguments give the same values'}
+        if ob == 'reassigned':
+            if sc == 'linear':
+                o.low_hz, o.slope_hz = w.get('low_hz2', 3.0), w.get('slope_hz2', 2.0)
+            else:
+                o.low_hz = w.get('low_hz2', 440.0)
+            lo_ = o.low_hz if sc == 'octave' else 0.0
+            for x in sorted(set([max(f or 1.0, lo_), lo_ + 1.0, 2 * lo_ + 10.0, 1000.0 + lo_])):
+                s_ = o.hertz_to_scale(x)
+                if abs(o.scale_to_hertz(s_) - x) > 1e-6 * max(1, abs(x)):
+                    return {'reproduced': True, 'detail': '%s: after reassigning the public parameters (low_hz=%r) the round trip of %r Hz gives %r Hz' % (sc, o.low_hz, x, o.scale_to_hertz(s_))}
+            return {'reproduced': False, 'detail': 'round trips fine after reassignment'}
         if ob.startswith('inv'):
             for x in grid:
                 s = o.hertz_to_scale(x)
